@@ -307,7 +307,15 @@ func (r *Runner) cacheDump(as *actorState) []interface{} {
 		seen[sp.ResKey] = true
 		var items []Obj
 		for _, x := range sp.Store.List() {
-			items = append(items, toObj(x))
+			o := toObj(x)
+			if k, _ := o["kind"].(string); k == "" {
+				// typed clients strip TypeMeta from decoded objects
+				if rd, ok := r.srv.res[sp.ResKey]; ok {
+					o["kind"] = rd.Kind
+					o["apiVersion"] = rd.APIVersion()
+				}
+			}
+			items = append(items, o)
 		}
 		// deterministic order
 		SortObjs(items)
